@@ -135,7 +135,7 @@ for _k, _d in _TWINS.items():  # order-isomorphic, pairwise distinct, hashable
 def _twin_str(c: int):
     """the twin (of the current kind, default str) of a numeric code, or None when the code has none (negative, > 9.5, not a number)"""
     if 0 <= c <= 19:
-        return _TWINS[TWIN or "str"][c]
+        return _mk_twin(c, TWIN or "str")  # built afresh at every use: two atoms over one constant hold equal but distinct objects
     return None
 
 
